@@ -383,6 +383,7 @@ def rxtx(seed, n, length=70):
         g.emit(ev("est", peer="p1", seq=g.nseq("p1"), node="n1", cp="7", ops=[op("create", "far", 1)]))
         dl = {"k": "dldr", "urr": 0, "trig": 0, "pdr": 1, "action": 12, "pkt": "45000001", "tok": 0,
               "vals": {k: "" for k in ("tv", "uv", "dv", "tp", "up", "dp", "st", "et", "du")}}
+        g.dup_ev()      # the establishment again, well inside the retention window of (maxRetrans + 1) time-outs
         g.emit(ev("report", sref=1, reports=[dict(dl)]))
         for _ in range(mr + 3):
             g.emit(ev("timeout", tt="tx", rref=1))
